@@ -155,20 +155,3 @@ pub fn h_queuer(n: usize, shape: Option<&[(u8, u8, u8)]>) {
     vcover!(!clean && q_finished, "aborted run: queuer finished after early sender drop");
     vcover!(s.max_in_flight >= 2, "two functions in flight");
 }
-
-#[cfg(kani)]
-mod proofs {
-    use super::*;
-
-    #[kani::proof]
-    #[kani::unwind(6)]
-    fn r_queuer() {
-        h_queuer(N, None);
-    }
-
-    #[kani::proof]
-    #[kani::unwind(6)]
-    fn r_queuer_vjoin() {
-        h_queuer(N, Some(&[(0, 2, 0), (1, 2, 0)]));
-    }
-}
